@@ -1,6 +1,10 @@
 """Minimal reproduction (C09 / C10): a received array that is sent on unchanged.
 
     /venv/bin/python /verif/notes/repro_forwarded_recv.py
+    PTVERIF_REPO=<tree before commit 03abe20> /venv/bin/python /verif/notes/repro_forwarded_recv.py
+
+(/repo has the fix since 03abe20: there the script shows a fresh output name
+and verify accepting; on an older tree it shows the defect described here.)
 
 Three ranks: 0 sends a to 1; rank 1 forwards exactly what it received to 2.
 Matched, acyclic, no self-communication -- a well-formed program.
@@ -12,7 +16,8 @@ placeholder reading itself, and verify_distributed_partition dies on the root
 with a bare AssertionError.
 """
 import sys
-sys.path[:0] = ["/verif", "/repo"]
+import os
+sys.path[:0] = ["/verif", os.environ.get("PTVERIF_REPO", "/repo")]
 import numpy as np
 from ptverif import fakempi
 fakempi.install()
